@@ -525,6 +525,14 @@ class ProgGen:
                                            [PArg(PType("class", made[0].qname, "cref"), "a"),
                                             PArg(PType("class", made[-1].qname, "sptr"), "b")])))
 
+    def force_uchar(self):
+        """an `unsigned char` parameter (used by the known-finding program only: the generated guard asks
+        isa(x,'unsigned char'), a class MATLAB does not have, so such a method can never be called)"""
+        c = PClass(self.fresh(["ByteBox", "Octet"]), [])
+        self.p.classes.append(c)
+        c.ctors.append(PFunc("ctor", c.name, None, []))
+        c.methods.append(PFunc("method", "put", PType("prim", "int"), [PArg(PType("prim", "unsigned char"), "c")]))
+
     def force_enum_nested(self):
         self.force_enum(nested=True)
 
@@ -640,7 +648,7 @@ class ProgGen:
 
 def _mclass(ty):
     return {"int": "numeric", "size_t": "numeric", "double": "double", "bool": "logical", "string": "char",
-            "char": "char"}[ty.name]
+            "char": "char", "unsigned char": "uint8"}[ty.name]
 
 
 def _guard_sig(f):
@@ -866,6 +874,7 @@ inline std::string hexd(double d) { unsigned char b[8]; std::memcpy(b, &d, 8); s
 inline std::string enc(int v) { return "i:" + std::to_string(v); }
 inline std::string enc(size_t v) { return "z:" + std::to_string(v); }
 inline std::string enc(char v) { return "c:" + std::to_string((int)(unsigned char)v); }
+inline std::string enc(unsigned char v) { return "u:" + std::to_string((int)v); }
 inline std::string enc(bool v) { return std::string("b:") + (v ? "1" : "0"); }
 inline std::string enc(double v) { return "d:" + hexd(v); }
 inline std::string enc(const std::string& v) { std::string s = "s:"; static const char* h = "0123456789abcdef";
